@@ -4,7 +4,8 @@
    Model/Asserts.v transcribes every BOOST_MULTI_ASSERT / assert the operations of Model/View.v, Model/Iter.v and
    Model/Assign.v execute (array_ref.hpp, detail/layout.hpp, detail/operators.hpp; file:line cited there). *)
 From BM Require Import Base.Tactics Model.Layout Model.View Model.Spec Model.Iter Model.Rebase Model.Assign Model.Asserts
-  Proofs.LayoutProofs Proofs.ViewProofs2 Proofs.IterProofs Proofs.RebaseProofs Proofs.AssertsProofs Proofs.AssertsProofs2.
+  Proofs.LayoutProofs Proofs.ViewProofs2 Proofs.IterProofs Proofs.RebaseProofs Proofs.AssertsProofs Proofs.AssertsProofs2
+  Proofs.AssertsProofs3.
 Local Open Scope Z_scope.
 
 (* (1) SILENT ON VALID USE.  Any rank, any extents (0 and 1 included), any finite sequence of view operations each
@@ -117,6 +118,63 @@ Theorem C20_unstopped_assign_fits :
   forall k dst src, lok (lay dst) -> lok (lay src) -> asrt_assign k dst src = true -> er_size dst = er_size src.
 Proof. exact C20_unstopped_assign_fits_proved. Qed.
 Print Assumptions C20_unstopped_assign_fits.
+
+(* ALIASING OPERANDS (two views of ONE array).  The assertion of every overload class is a function of the two layouts only:
+   replacing the base pointers -- in particular making them equal -- changes neither the assertion nor the abort. *)
+Theorem C20_assign_base_irrelevant :
+  forall k d s bd bs conv m,
+    asrt_assign k (mkview (lay d) bd) (mkview (lay s) bs) = asrt_assign k d s
+    /\ (g_assign Debug k conv (mkview (lay d) bd) (mkview (lay s) bs) m = Aborted <-> g_assign Debug k conv d s m = Aborted).
+Proof. exact C20_assign_base_irrelevant_proved. Qed.
+Print Assumptions C20_assign_base_irrelevant.
+(* two views obtained from one root array (any index bases) by two view programs -- same first element and strides with
+   different extents, overlapping blocks, a block and a sub-block, a row and a column, the very same elements -- assigned,
+   move-assigned, swapped (every overload class of subarray and array_ref): the assertion-enabled build stops the statement
+   before the copy loop EXACTLY when the extensions differ, and runs the copy loop when they are equal *)
+Theorem C20_assign_aliasing_exact :
+  forall (exts : list range) (opsd opss : list op) (d s : view) (k : akind),
+    Forall (fun r => fst r <= snd r) exts ->
+    run_ok opsd (root_view exts) = true -> run_ok opss (root_view exts) = true ->
+    run_ops opsd (root_view exts) = Some d -> run_ops opss (root_view exts) = Some s ->
+    view_kind k = true ->
+    forall conv m,
+       (x_eq (l_extensions (lay d)) (l_extensions (lay s)) = false -> g_assign Debug k conv d s m = Aborted)
+    /\ (x_eq (l_extensions (lay d)) (l_extensions (lay s)) = true -> g_assign Debug k conv d s m = Done (assign_view conv d s m)).
+Proof. exact C20_assign_aliasing_exact_proved. Qed.
+Print Assumptions C20_assign_aliasing_exact.
+
+(* VIEW-FORMING CALLS OUTSIDE THEIR DOCUMENTED DOMAIN are stopped: taked / dropped with a count above size(), halved() of an odd
+   size, partitioned by 0 or by a non-divisor, sliced (D > 1) with a bound outside the extension; counts up to size() included
+   (the boundary count = size()) pass *)
+Theorem C20_violating_ops_fire :
+  forall (v : view) (d : dim) (l : layout), lay v = d :: l ->
+       (forall n, v_size v < n -> g_apply Debug (OTaked n) v = Aborted /\ g_apply Debug (ODropped n) v = Aborted)
+    /\ (Z.rem (v_size v) 2 <> 0 -> g_apply Debug OHalved v = Aborted)
+    /\ (forall n, n = 0 \/ Z.rem (d_nelems d) n <> 0 -> g_apply Debug (OPartitioned n) v = Aborted)
+    /\ (forall a b d' l', l = d' :: l' -> dok d -> a <> b ->
+          r_contains (d_extension d) a = false \/ r_contains (d_extension d) (b - 1) = false ->
+          g_apply Debug (OSliced a b) v = Aborted)
+    /\ (forall n, n <= v_size v -> asrt_op (OTaked n) v = true /\ asrt_op (ODropped n) v = true).
+Proof. exact C20_violating_ops_fire_proved. Qed.
+Print Assumptions C20_violating_ops_fire.
+
+(* layout_t::scale (member_cast, reinterpret_array_cast) AFTER notes/patches_C20/scale-offset-rebased.diff: its assertions hold on
+   every well-formed layout with any index bases whenever the stride assertion (the documented size compatibility) holds, and the
+   cast keeps the index range; the assertion of the code before the fix (offset_ == 0, "TODO implement") is false on the array
+   indexed [2,5) although the call is inside its domain *)
+Theorem C20_scale_asserts_silent :
+  forall (num den : Z) (l : layout), lok l -> asrt_scale_stride num den l = true -> asrt_scale_plain num den l = true.
+Proof. exact C20_scale_asserts_silent_proved. Qed.
+Print Assumptions C20_scale_asserts_silent.
+Theorem C20_scale_keeps_extension :
+  forall (k den : Z) (d : dim) (f n : Z), 0 < k -> 0 < den -> dim_okg d f n ->
+    dim_okg (d_scale_fixed (k * den) den d) f n
+    /\ d_extension (d_scale_fixed (k * den) den d) = d_extension d.
+Proof. exact C20_scale_keeps_extension_proved. Qed.
+Print Assumptions C20_scale_keeps_extension.
+Theorem C20_scale_old_refuted : exists l, lok l /\ asrt_scale_stride 16 8 l = true /\ asrt_scale_old l = false.
+Proof. exact C20_scale_old_refuted_proved. Qed.
+Print Assumptions C20_scale_old_refuted.
 
 (* (3) NDEBUG / BOOST_MULTI_ASSERT_DISABLE CHANGE NOTHING.  exec_op, the iterator and the assignment functions are
    defined in files that do not import Asserts.v; executing a valid program under the assertion switch gives, in all
